@@ -107,7 +107,7 @@ func isStoreWrite(ci ssa.CallInstruction) bool {
 		strings.HasSuffix(id, "client/modules/state.(State).Delete"), strings.HasSuffix(id, "client/modules/state.(LevelDBState).Delete"):
 		return true
 	}
-	return false
+	return stateLikeCall(ci, "Set", "Delete", "SaveOffset")
 }
 
 func isStoreRead(ci ssa.CallInstruction) bool {
@@ -120,7 +120,7 @@ func isStoreRead(ci ssa.CallInstruction) bool {
 		strings.HasSuffix(id, "client/modules/state.(State).LoadOffset"):
 		return true
 	}
-	return false
+	return stateLikeCall(ci, "Get", "GetOrError", "LoadOffset")
 }
 
 // absentEdges: edges of fn on which a preceding read reported "absent": the non-nil error edge of a read, or
